@@ -2,10 +2,10 @@ package simrt
 
 import (
 	"io"
-	"sort"
 	"io/fs"
 	"os"
 	"path/filepath"
+	"sort"
 	"strconv"
 	"syscall"
 	"time"
@@ -412,7 +412,10 @@ func (f *File) Write(p []byte) (int, error) {
 	if f.real != nil && f.closed {
 		return 0, &fs.PathError{Op: "write", Path: f.name, Err: fs.ErrClosed}
 	}
-	if f.real != nil && f.wplan != nil && len(f.wplan.DelaysUs) > 0 {
+	if f.real != nil && f.wplan != nil && len(f.wplan.DelaysUs) > 0 && !(f.isStderr && f.wdi >= len(f.wplan.DelaysUs)) {
+		// (the log's delays are not cycled: a slow log consumer stalls a few
+		// writes; a write there cannot hand over the baton, so an endless series
+		// of stalls would keep a logging goroutine runnable for ever)
 		d := f.wplan.DelaysUs[f.wdi%len(f.wplan.DelaysUs)]
 		f.wdi++
 		if d > 0 {
